@@ -115,9 +115,9 @@ func (bf *buffer) Close() error {
 	bf.pcond.L.Unlock()
 
 	verifYield(bf, "x.l2")
-	bf.pcond.L.Lock()
+	bf.ccond.L.Lock()
 	bf.ccond.Broadcast()
-	bf.pcond.L.Unlock()
+	bf.ccond.L.Unlock()
 
 	return nil
 }
@@ -275,6 +275,7 @@ func (bf *buffer) Read(p []byte) (int, error) {
 		verifYield(bf, "r.test")
 		for ppos = bf.pseq.get(); cpos >= ppos; ppos = bf.pseq.get() {
 			if bf.isDone() {
+				bf.ccond.L.Unlock()
 				return 0, io.EOF
 			}
 
@@ -336,8 +337,9 @@ func (bf *buffer) ReadPeek(n int) ([]byte, error) {
 	verifYield(bf, "rp.lock")
 	bf.ccond.L.Lock()
 	verifYield(bf, "rp.test")
-	for ; cpos >= ppos; ppos = bf.pseq.get() {
+	for ppos = bf.pseq.get(); cpos >= ppos; ppos = bf.pseq.get() {
 		if bf.isDone() {
+			bf.ccond.L.Unlock()
 			return nil, io.EOF
 		}
 
@@ -404,8 +406,9 @@ func (bf *buffer) ReadWait(n int) ([]byte, error) {
 	verifYield(bf, "rw.lock")
 	bf.ccond.L.Lock()
 	verifYield(bf, "rw.test")
-	for ; next > ppos; ppos = bf.pseq.get() {
+	for ppos = bf.pseq.get(); next > ppos; ppos = bf.pseq.get() {
 		if bf.isDone() {
+			bf.ccond.L.Unlock()
 			return nil, io.EOF
 		}
 
@@ -568,6 +571,7 @@ func (bf *buffer) waitForWriteSpace(n int) (int64, int, error) {
 		verifYield(bf, "wfs.test")
 		for cpos = bf.cseq.get(); wrap > cpos; cpos = bf.cseq.get() {
 			if bf.isDone() {
+				bf.pcond.L.Unlock()
 				return 0, 0, io.EOF
 			}
 
